@@ -94,6 +94,12 @@ func (s *Sched) Yield(site string) {
 		if h&0xffff >= th {
 			return
 		}
+		// A function reached from a sort comparator is called a number of times that depends on the order
+		// in which the library filled the slice (often Go map order): yielding there would make the
+		// schedule differ from process to process for the same choices.
+		if inSortCallback() {
+			return
+		}
 	} else if !s.allOn && !s.active[site] {
 		return
 	}
@@ -280,6 +286,22 @@ func goroutineBlocked(goid int64) bool {
 		return true
 	}
 	return false
+}
+
+// inSortCallback reports whether the caller is running underneath package sort or slices.
+func inSortCallback() bool {
+	var pcs [32]uintptr
+	n := runtime.Callers(3, pcs[:])
+	frames := runtime.CallersFrames(pcs[:n])
+	for {
+		f, more := frames.Next()
+		if strings.HasPrefix(f.Function, "sort.") || strings.HasPrefix(f.Function, "slices.") {
+			return true
+		}
+		if !more {
+			return false
+		}
+	}
 }
 
 // curGoid returns the id of the calling goroutine (parsed from its stack header).
